@@ -972,7 +972,7 @@ def run_component(tier: str, seed: int, corrupt: bool = False) -> dict:
     for trust in (True, False):
         if thorough:
             jobs["proc1:%s" % trust] = (cfg(s5, "ProcNext", ids4m, "AllH", trust=trust, symmetry=True, fix=cfix,
-                                            invariants=ALL_PROC_INV, properties=PROC_PROP), [], 8, False)
+                                            variants=("txn",), invariants=ALL_PROC_INV, properties=PROC_PROP), [], 8, False)
         jobs["proc1reps:%s" % trust] = (cfg(s5, "ProcNext", ids4s if nid_proc == 4 else ids3s, "RealH", trust=trust, fix=cfix,
                                             invariants=ALL_PROC_INV, properties=PROC_PROP), reps, 4, trust)
     jobs["control"] = (cfg(s5, "ProcNext", ids3s, "RealH", trust=True, multi=True, fix=cfix, invariants=["NoRedispatch"]),
@@ -986,6 +986,7 @@ def run_component(tier: str, seed: int, corrupt: bool = False) -> dict:
     ids2 = {m: idsets[0][m] for m in MIDS[:2]}
     for trust in (True, False):     # two threads, two ids: every transition exported for conformance walks
         jobs["pexp2:%s" % trust] = (cfg(s5, "ProcNext", ids2s, "RealH", trust=trust, threads=2, export=True, fix=cfix,
+                                        variants=(("txn",) if not thorough else ("txn", "plain", "fail")),
                                         invariants=["TypeOK", "NoFalseNegative", "BitsExact"]), [h2], 2, False)
     jobs["two:off"] = (cfg(s5, "ProcNext", ids3s, "RealH", trust=False, threads=2, fix=cfix,
                            invariants=PROC_INV + ["NoRedispatch", "NoRedispatchAny"]), [h3], 4, False)
@@ -1034,7 +1035,7 @@ def run_component(tier: str, seed: int, corrupt: bool = False) -> dict:
         if not name.startswith("proc1"):
             continue
         trust = name.endswith("True")
-        scope = ("all %d hash functions of 4 ids (SYMMETRY ids)" % (_nsub(s5) ** 4) if name.startswith("proc1:") else
+        scope = ("all %d hash functions of 4 ids (SYMMETRY ids), handler variant txn" % (_nsub(s5) ** 4) if name.startswith("proc1:") else
                  "%d representatives of the %d hash functions of %d ids up to renaming of ids and positions"
                  % (len(reps), _nsub(s5) ** nid_proc, nid_proc))
         det["proc_exhaustive"].append({"trust": trust, "threads": 1, "scope": scope, "states": res.distinct,
@@ -1092,7 +1093,7 @@ def run_component(tier: str, seed: int, corrupt: bool = False) -> dict:
     # ---- 3b. processor-level transitions (one thread), walks replayed with a real worker thread ------------
     t1 = time.time()
     pe = {"edges": 0, "covered": 0, "walks": 0, "steps": 0, "mismatches": 0, "per_config": []}
-    budget = 1500 if not thorough else 10**9
+    budget = 1500 if not thorough else 8000
     for hi in range(nproc):
         for trust in (True, False):
             res = results["pexp:%d:%s" % (hi, trust)]
